@@ -10,10 +10,18 @@ Atoms == {[t |-> "null"], [t |-> "bool", b |-> TRUE], [t |-> "num", a |-> "0", i
           S(<<"NL", "C01", "EACUTE">>), [t |-> "char", s |-> <<"x">>], [t |-> "unitvar", name |-> "Uv"],
           [t |-> "none"], [t |-> "bytes", n |-> <<0, 255>>], [t |-> "bytes", n |-> <<>>]}
 Keys == {S(<<"k">>), S(<<"QUOTE">>), [t |-> "char", s |-> <<"c">>], [t |-> "num", a |-> "7", int |-> TRUE],
-         [t |-> "unitvar", name |-> "Kv"], [t |-> "newtype", v |-> S(<<"n">>)]}
+         [t |-> "unitvar", name |-> "Kv"], [t |-> "newtype", v |-> S(<<"n">>)],
+         \* newtype structs around every class of key: integers (quoted like bare ones, through any number of
+         \* layers), a key the serializer may refuse (bool), one it must refuse (a sequence)
+         [t |-> "newtype", v |-> [t |-> "num", a |-> "42", int |-> TRUE]],
+         [t |-> "newtype", v |-> [t |-> "newtype", v |-> [t |-> "num", a |-> "-3", int |-> TRUE]]],
+         [t |-> "newtype", v |-> [t |-> "bool", b |-> TRUE]],
+         [t |-> "newtype", v |-> [t |-> "seq", items |-> <<>>]],
+         [t |-> "newtype", v |-> [t |-> "unitvar", name |-> "Kv"]]}
 Lists(P) == {<<>>} \cup {<<x>> : x \in P} \cup {<<x, y>> : x \in P, y \in P}
 KV(P) == {<<>>} \cup {<<<<k, x>>>> : k \in Keys, x \in P} \cup {<<<<k, x>>, <<S(<<"z">>), y>>>> : k \in Keys, x \in P, y \in P}
 FV(P) == {<<>>} \cup {<<<<"f", x>>>> : x \in P} \cup {<<<<"f", x>>, <<"g2", y>>>> : x \in P, y \in P}
+         \cup {<<<<"q\"t", x>>, <<"b\\s\tn\nl", x>>>> : x \in P}          \* renamed fields whose names need escaping
 Over(P) ==
     {[t |-> "seq", items |-> l] : l \in Lists(P)} \cup {[t |-> "tuple", items |-> l] : l \in Lists(P) \ {<<>>}}
     \cup {[t |-> "map", entries |-> e] : e \in KV(P)} \cup {[t |-> "struct", fields |-> f] : f \in FV(P)}
